@@ -226,8 +226,14 @@ func (p *Prog) globalWrites() []GlobalWrite {
 							continue
 						}
 						if g := glob(u.X); g != nil {
-							atomic := fn.Pkg() != nil && fn.Pkg().Path() == "sync/atomic"
-							res = append(res, GlobalWrite{Var: g, Func: n, Pos: p.pos(x), How: "address passed to " + extFullName(fn), Atomic: atomic})
+							// an atomic counter increment commutes with the increments of other calls; an atomic store / swap
+							// overwrites what a concurrent call relies on (no data race, but interference)
+							atomic := fn.Pkg() != nil && fn.Pkg().Path() == "sync/atomic" && (strings.HasPrefix(fn.Name(), "Add") || strings.HasPrefix(fn.Name(), "Load"))
+							how := "address passed to " + extFullName(fn)
+							if fn.Pkg() != nil && fn.Pkg().Path() == "sync/atomic" && !atomic {
+								how += ": overwrites shared state that concurrent calls depend on"
+							}
+							res = append(res, GlobalWrite{Var: g, Func: n, Pos: p.pos(x), How: how, Atomic: atomic})
 						}
 					}
 					// pointer-receiver method on a global value (e.g. mutex.Lock, atomic.Int64.Add)
@@ -241,7 +247,7 @@ func (p *Prog) globalWrites() []GlobalWrite {
 										if fn.Pkg() != nil {
 											pk = fn.Pkg().Path()
 										}
-										atomic := pk == "sync/atomic"
+										atomic := pk == "sync/atomic" && (strings.HasPrefix(fn.Name(), "Add") || strings.HasPrefix(fn.Name(), "Load"))
 										if pk == "sync" {
 											// locks and barriers synchronise; sync.Pool / sync.Map carry data between calls
 											rn := ""
